@@ -391,8 +391,22 @@ void World::checkPayloads(int i, const Op& op, const Obs& before) {
 		// requests guards issued may have been applied by a further round that consulted nobody
 		for (size_t k = 0; k < h.trace.size(); ++k) { const Ev& e = h.trace[k]; if (e.k == EV_ISSUE && fge >= 0 && int(k) >= fge) { Tr t; t.origin = e.state; t.kind = e.a; t.dest = e.b; t.hasPayload = e.hasP; t.payload = e.p; approved.push_back(t); } }
 		if (h.guards.empty()) { approved = issued; for (size_t k = 0; k < h.trace.size(); ++k) { const Ev& e = h.trace[k]; if (e.k == EV_ISSUE && !(fge < 0 || int(k) < fge)) { Tr t; t.origin = e.state; t.kind = e.a; t.dest = e.b; t.hasPayload = e.hasP; t.payload = e.p; approved.push_back(t); } } }
+		// without guards nobody sees the pending list: requests the plans issued during the pass are recognised by the task they execute
+		auto fromPlan = [&](const Tr& t) {
+			if (!h.guards.empty() || !before.alive || t.origin < 0 || !h.shape->isRegion(t.origin)) return false;
+			const int reg = h.shape->st[size_t(t.origin)].region;
+			if (reg < 0 || reg >= int(before.plans.size())) return false;
+			for (auto& tk : before.plans[size_t(reg)]) if (tk.dest == t.dest && tk.kind == t.kind && tk.hasPayload == t.hasPayload && (!t.hasPayload || tk.payload == t.payload)) return true;
+			for (auto& e : h.trace) if (e.k == EV_PLAN_EDIT && (e.a & 0xFF) == A_PLAN_APPEND && int(e.c & 0xFFFF) == t.dest && int((e.a >> 16) & 0xFF) == t.kind && e.hasP == t.hasPayload && (!t.hasPayload || e.p == t.payload)) return true;
+			return false;
+		};
 		size_t j = 0;
-		for (size_t k = 0; k < approved.size() && j < v.current.size(); ++k) if (approved[k] == v.current[j]) ++j;
+		for (size_t k = 0; j < v.current.size();) {
+			if (k < approved.size() && approved[k] == v.current[j]) { ++j; ++k; continue; }
+			if (fromPlan(v.current[j])) { ++j; continue; }
+			if (k >= approved.size()) break;
+			++k;
+		}
 		if (j != v.current.size()) {
 			std::snprintf(b, sizeof b, "%s: inside enter of %d currentTransitions() shows an entry (kind %s dest %d payload %lld) that is not one of the approved requests", h.role.c_str(), v.state,
 				kindName(v.current[j].kind), v.current[j].dest, (long long) v.current[j].payload);
